@@ -352,6 +352,7 @@ def find_check_cache(context):
     # Otherwise, check to see if any of the `find_files` calls have different
     # results. If not, we can avoid regenerating.
     regenerate = False
+    all_seen_dirs = []
 
     for file_filter, results in old_cache.items():
         found, extra, seen_dirs = [], [], []
@@ -362,14 +363,30 @@ def find_check_cache(context):
                 extra.append(path)
 
         regenerate = regenerate or results[0] != found or results[1] != extra
+        all_seen_dirs.extend(seen_dirs)
 
     if not regenerate:
+        # The set of directories we walked may have changed even though the
+        # results didn't (e.g. a new, so-far uninteresting subdirectory), so
+        # make sure future changes to them are noticed as well.
+        _rewrite_depfile(context.env, set(all_seen_dirs))
+
         # We don't want to regenerate. To make sure the build backend is happy,
         # update the modification time of all the output files.
         for i in regen_files.outputs:
             if _path.exists(i, context.env.base_dirs):
                 _path.touch(i, context.env.base_dirs)
         raise AbortConfigure()
+
+
+def _rewrite_depfile(env, seen_dirs):
+    if not seen_dirs:
+        return
+    if env.backend == 'make':
+        write_depfile(env, Path(depfile_name), make.filepath, seen_dirs,
+                      makeify=True)
+    elif env.backend == 'ninja':
+        write_depfile(env, Path(depfile_name), ninja.filepath, seen_dirs)
 
 
 @make.post_rules_hook
